@@ -102,14 +102,15 @@ def run(tier, seed):
         for pc in er.per_case:
             if pc:
                 vs += pipeline.judge_tables(PROP, pc['case'], pc['outs'], pc['docs'])
-                _, _ = None, None
+                # the entries the stored indices denote are the values that were handed in (bottom-up composition: record -> list -> RR -> name/type/rdata)
+                vs += pipeline.judge_roundtrip(PROP, pc['case'], pc['outs'], pc['exp_out'], pc['docs'], {})
         obs = dict(table_histories=len(cases), table_api_calls_checked=calls, largest_index_returned=growth, exporter_histories=len(ecases), blocks_checked_for_duplicates_and_reachability=er.obs['blocks'],
                    flushes=er.obs['flush_by_size'] + er.obs['flush_explicit'])
     finally:
         er.close()
     cov = dict(evaluations=len(cases) + len(ecases), distinct_nontrivial=len(cases) + er.nontrivial(lambda pc: len(pc['docs']) >= 1),
                rule='interleaved add/get/clear over the nine block tables (pools of 3-8 values incl. values differing in one optional member and values with equal hashes; large domains for growth/rehash) '
-                    'against a list+dict model, hook-checked structural invariant at quiescent points; plus exporter record streams across many flushes: no table with two equal entries, all entries reachable, indices closed; '
+                    'against a list+dict model, hook-checked structural invariant at quiescent points; plus exporter record streams across many flushes: no table with two equal entries, all entries reachable, indices closed, and the entries reached through the stored indices equal the values handed in (independent interpretation); '
                     'all histories distinct (independent seeds)',
                samples=[{'ops': cases[1]['ops'][:8]}, sample_of(ecases[0], 3)], observed=obs)
     return dict(violations=vs, coverage=cov)
